@@ -30,6 +30,20 @@ Theorem C03_lost_location : forall outdir old fresh fn lines c,
 Proof. exact lost_location. Qed.
 Print Assumptions C03_lost_location.
 
+(* the negative half for the directory: when no code of [fn] is lost (C03_lost_complete_and_only_lost says exactly when:
+   every tag of the old file survives or is empty), or [fn] did not exist or could not be read, NO LostCode file is
+   written for it *)
+Theorem C03_nothing_lost_no_lostfile : forall outdir old fresh fn lines,
+  names_ok (keys fresh) -> slookup fn fresh = Some lines ->
+  match old fn with
+  | Readable c => snd (regen_file (join outdir fn) lines c) = []
+  | Missing => True
+  | Unreadable => True
+  end ->
+  slookup (lost_name fn) (fst (regen outdir old fresh)) = None.
+Proof. exact nothing_lost_no_lostfile. Qed.
+Print Assumptions C03_nothing_lost_no_lostfile.
+
 (* A generated file whose previous content cannot be read back is not written at all (it is left untouched),
    nor is a LostCode file produced for it, and it is not reported as generated. *)
 Theorem C03_unreadable_untouched : forall outdir old fresh fn lines,
